@@ -2,10 +2,12 @@
 
 Layers of the tie (all built from vlib.REPO's working tree):
   unit   overlay tests inside pkg/fixer and internal/util: renameCandidate, handleRename op sequences on the
-         real InMemoryFileProvider (map- and disk-backed), FindClosestMatchingRoot, DirCleanUpPaths on temp trees
-  ws     small workspaces through the real `regal fix --force` binary: before/after tree snapshots against the set
-         of trees the model allows (the order of violations is schedule dependent), plus the conservation predicate
-         computed on the snapshots alone
+         real InMemoryFileProvider (map- and disk-backed), ordered histories (the moves of one fix run in a chosen
+         order, with the conservation predicate on the provider), FindClosestMatchingRoot, DirCleanUpPaths on temp
+         trees with bystanders (hidden files, data files, sub-directories, symbolic links; full listing with kinds)
+  ws     small workspaces (with bystanders; chain-plus-collision shapes run repeatedly) through the real
+         `regal fix --force` binary: before/after tree snapshots against the set of trees the model allows (the order
+         of violations is schedule dependent), plus the conservation predicate computed on the snapshots alone
 """
 import base64, json, os, re, threading
 import vlib
@@ -473,7 +475,8 @@ def shrink(ctx, h, regal, r, kind):
         nonlocal n
         n += 1
         rs = run_ws(ctx, h, regal, cand, tag='_s%d' % n)
-        return rs[0] if any(k == kind for k, _ in predicate(rs[0])) else None
+        # (the stored workspace is run several times: the order of the moves differs from run to run)
+        return next((x for x in rs if any(k == kind for k, _ in predicate(x))), None)
     changed = True
     while changed and n < 14:
         changed = False
@@ -562,7 +565,8 @@ def run(ctx):
                            signature={'kind': kind, 'key': sig_key(small, kind)})
             reported += 1
     hist_hits = clean_hits = 0
-    for c in seqs:
+    # (the small named shapes first: they make the most readable replays)
+    for c in sorted(seqs, key=lambda c: (0 if (c.get('hist') or {}).get('shape', 'random') != 'random' else 1, len(c['ops']))):
         w = history_predicate(c)
         if w:
             hist_hits += 1
